@@ -610,10 +610,20 @@ func (cc *Conn) Ping(ctx context.Context) error {
 // AsyncPing sends ping and receivedPong will be called when pong arrives. It returns cancellation of ping operation.
 func (cc *Conn) AsyncPing(receivedPong func()) (func(), error) {
 	req := cc.AcquireMessage(cc.Context())
+	// req stays with this call until it has been written; the handler container gets its own copy
+	// (as in prepareWriteMessage), because an element of the container is released by whoever
+	// removes it - a matching message, housekeeping or the returned cancel function - and any of
+	// them may do so while the write is still in progress.
+	defer cc.ReleaseMessage(req)
 	req.SetType(message.Confirmable)
 	req.SetCode(codes.Empty)
 	mid := cc.GetMessageID()
 	req.SetMessageID(mid)
+	msg := cc.AcquireMessage(cc.Context())
+	if err := req.Clone(msg); err != nil {
+		cc.ReleaseMessage(msg)
+		return nil, fmt.Errorf("cannot clone message: %w", err)
+	}
 	if _, loaded := cc.midHandlerContainer.LoadOrStore(mid, &midElement{
 		handler: func(_ *responsewriter.ResponseWriter[*Conn], r *pool.Message) {
 			if r.Type() == message.Reset || r.Type() == message.Acknowledgement {
@@ -625,8 +635,9 @@ func (cc *Conn) AsyncPing(receivedPong func()) (func(), error) {
 		private: struct {
 			sync.Mutex
 			msg *pool.Message
-		}{msg: req},
+		}{msg: msg},
 	}); loaded {
+		cc.ReleaseMessage(msg)
 		return nil, fmt.Errorf("cannot insert mid(%v) handler: %w", mid, coapErrors.ErrKeyAlreadyExists)
 	}
 	removeMidHandler := func() {
